@@ -192,9 +192,22 @@ def run_case(case, rep, record=True):
                 h.reset()
                 check_mask(h, rep, "after reset")
                 continue
-            if op[0] in ("g", "o", "b"):
+            if op[0] in ("g", "v"):
+                # what-if planning (generative steps on earlier states) and read-only queries do not move the
+                # environment: the mask still describes the current state
+                res = walk.run_history(h, [tuple(op)], lambda *a: None, None, both_sides=False, do_gen=False)
+                check_mask(h, rep, f"after {'a generative step on a saved state' if op[0] == 'g' else 'a query'}")
+                if record:
+                    rep.count("mask-after-generative-or-query")
+                if res == "diverged":
+                    break
+                continue
+            if op[0] in ("o", "b"):
                 continue
             act = h.choose(op)
+            if op[0] == "s" and h.cross is not None:
+                h.exec_gen(h.cross[0], h.cross[1], act, op[3], op[4])
+                check_mask(h, rep, "after a generative step on a saved state")
             rec = h.exec_step(act, op[-2], op[-1])
             h.install(rec)
             check_mask(h, rep, f"after {act}")
@@ -243,7 +256,7 @@ class _Runner:
 def _shard(shard, seed, tier, n_cases):
     rep = Reporter(PID, tier, RULE)
     strat = engine.case_strategy(tier, dict(extras=False), weights=(12, 2, 6), min_ops=6, max_ops=30,
-                                 resets=True, gens=False)
+                                 resets=True, gens=True, queries=True)
     engine.drive(_Runner(rep), strat, n_cases, seed)
     return rep
 
